@@ -673,6 +673,12 @@ class Normalizer:
                         recv = self.lookup(self.fn.self_name or "self")
                     else:
                         recv = self.norm(f.value)
+                elif isinstance(f, ast.Name):
+                    # a bound method held in a local (`resolve = pair.resolveConflict; resolve()`): the receiver is the object the
+                    # attribute was read from
+                    held = self.norm(f)
+                    if held[0] == "attr" and held[2] == c.fn.name.lstrip("_") or (held[0] == "attr" and held[2] == c.fn.name):
+                        recv = held[1]
             if self.inline > 0 and (self.inline_ok is None or self.inline_ok(c.fn)) and len(repo) == 1:
                 r = self._inline_call(c.fn, params, e, recv)
                 if r is not None:
@@ -900,6 +906,9 @@ class Normalizer:
             for a in call.args:
                 if isinstance(a, ast.Starred):
                     t = self.norm(a.value)
+                    if t[0] == "call" and t[1] == "reversed" and len(t[2]) == 1 and t[2][0][0] in ("tuple", "list") \
+                            and not any(x[0] == "star" for x in t[2][0][1]):
+                        t = (t[2][0][0], tuple(reversed(t[2][0][1])))          # f(*reversed((a, b))) == f(b, a)
                     if t[0] in ("tuple", "list") and not any(x[0] == "star" for x in t[1]):
                         flat.extend(t[1])
                     else:
